@@ -14,6 +14,8 @@ namespace PdeVerif.Mesh
 /-- `idx` is a valid multi-index for `shape` (same length, entries in range) -/
 def InRange (idx shape : List Nat) : Prop := inShape idx shape = true
 
+instance (idx shape : List Nat) : Decidable (InRange idx shape) := by unfold InRange; infer_instance
+
 @[simp] theorem inRange_def (idx shape : List Nat) : InRange idx shape ↔ inShape idx shape = true := Iff.rfl
 
 theorem InRange.length_eq {idx shape : List Nat} (h : InRange idx shape) : idx.length = shape.length := by
@@ -208,6 +210,8 @@ theorem subShapeOf_length (axes : List (List Nat)) (idx : List Nat)
 
 /-- every axis has at least one cell (follows from the contract when the axis has a chunk) -/
 def Mesh.Pos (m : Mesh) : Prop := ∀ sizes ∈ m.axes, 0 < sizes.sum
+
+instance (m : Mesh) : Decidable m.Pos := by unfold Mesh.Pos; infer_instance
 
 theorem Mesh.pos_of_contract (m : Mesh) (h : ∀ sizes ∈ m.axes, sizes ≠ [] ∧ ∀ s ∈ sizes, 0 < s) : m.Pos := by
   intro sizes hs
